@@ -28,12 +28,43 @@ IVP = "cardillo/solver/scipy_ivp.py"
 APPLIED = [("h",), ("W_c", "la_c"), ("W_tau", "la_tau")]
 
 
+def linked_law_needs_active_contact(ctx):
+    """compute_I_F hands (i_N_local, i_F_local, reservoir) to the prox loops, which read `len(i_N) > 0` as "the reservoir is scaled by
+    that normal force" and an EMPTY i_N as "constant reservoir, scale 1.0".  The local index of a linked law is a search of its
+    global normal index in the active set and is empty when the contact is not active.  So the append of a linked law must be
+    guarded by the membership test itself; a guard that another disjunct can satisfy (`not slice or ...`) lets an open contact
+    through as a constant reservoir: it receives a friction force although its normal force is zero."""
+    from ..model import guards_of
+    rep = ctx.rep
+    rel = "cardillo/solver/_base.py"
+    fn = ctx.repo.get(rel, "compute_I_F")
+    C = f"{rel}:compute_I_F"
+    active = fn.args.args[0].arg
+    apps = [n for n in ast.walk(fn) if isinstance(n, ast.Expr) and isinstance(n.value, ast.Call) and isinstance(n.value.func, ast.Attribute)
+            and n.value.func.attr == "append" and n.value.args and isinstance(n.value.args[0], ast.Tuple) and len(n.value.args[0].elts) == 3]
+    linked = [a for a in apps if isinstance(a.value.args[0].elts[0], ast.Name)]
+    if not linked:
+        raise AnalysisError(f"{C}: append of a linked friction law not found")
+    for ap in linked:
+        gs = guards_of(ap, fn)
+        member = [t for (t, pol) in gs if pol and (" in " + active) in t and " or " not in t and not t.startswith("not ")]
+        if member:
+            rep.ok("C16.R7", C, f"linked friction law appended only under `{member[0]}`")
+        else:
+            weak = [t for (t, pol) in gs if (" in " + active) in t]
+            rep.bad("C16.R7", C, ap, f"a friction law linked to a normal force is appended under `{weak[0] if weak else [t for t, p in gs]}`, which does not imply that its contact is in the "
+                    f"active set `{active}`: for an open contact the searched local normal index is empty and the prox loop treats the law as a constant reservoir of size 1 "
+                    "(friction force on an open contact)", f"{rel}:{ap.lineno}")
+
+
 def run(ctx):
     rep = ctx.rep
     rep.rule("C16.R1", "EOM term set of the initial linear system", 8)
     rep.rule("C16.R2", "rejection asserts dominate the normal return", 8)
     rep.rule("C16.R3", "evaluation point (t0, q0, u0)", 15)
     rep.rule("C16.R4", "acceleration-level prox template", 3)
+    rep.rule("C16.R7", "a friction law that depends on a normal force reaches the prox loop only for an ACTIVE normal contact (else it is mistaken for a constant reservoir)", 1)
+    linked_law_needs_active_contact(ctx)
     rep.rule("C16.R6", "local normal/friction connectivity of the contacts active at t0 (index typing in compute_I_F, shared with C18.R5)", 4)
     from .c18 import nf_link
     nf_link(ctx, "C16.R6")
